@@ -205,8 +205,10 @@ PROPS["C13"] = dict(
     stubs=[TRACING], assumptions=[FORGET], hooks=[],
 )
 
+FS200 = ["-Z", "unstable-options", "--cbmc-args", "--max-field-sensitivity-array-size", "200"]
+
 PROPS["C31"] = dict(
-    group="gossipsub", files=["c31.rs"],
+    group="gossipsub", files=["c31.rs"], kani_args=FS200,
     explanation=(
         "libp2p_gossipsub::protocol::validate_rpc_limits (the pre-validation GossipsubCodec::decode runs on its receive "
         "buffer) on: a complete length-prefixed RPC of a concrete shape (publish entries, control field, subscriptions, "
@@ -227,5 +229,20 @@ PROPS["C20"] = dict(
         "rejected otherwise; for every accepted p: to_bytes(p) == input and from_bytes(to_bytes(p)) == p; never panics."),
     bounds="input lengths {0,1,2,3} (quick) + {4,6,34,36,44,45} (thorough), all byte values; unwind 70",
     outside="base58 text encoding; PeerId::from_public_key (needs key generation / SHA-256 / protobuf of real keys); public/private key protobuf round trips (curve arithmetic, RSA); inputs longer than 45 bytes",
+    stubs=[TRACING, FMT], assumptions=[FORGET], hooks=[],
+)
+
+PROPS["C58"] = dict(
+    group="swarm", files=["c58.rs"],
+    explanation=(
+        "The code generated by #[derive(NetworkBehaviour)] for a struct with three probe fields whose allow/deny "
+        "decision at each of the four connection callbacks and number of contributed dial addresses are symbolic and "
+        "whose received calls go to a fixed-size log: a connection/dial is denied iff some field denies; fields are asked "
+        "in declaration order, each once, none after the first denier; the pending-dial address list is the "
+        "concatenation of the fields' lists, byte-identical; each constructible FromSwarm event reaches every field "
+        "exactly once in order; a handler event wrapped Left(Left)/Left(Right)/Right reaches exactly the matching field "
+        "with its payload unchanged."),
+    bounds="three fields; one callback/event per harness; FromSwarm kinds {NewListener, NewExternalAddrCandidate, ExternalAddrConfirmed, ExternalAddrExpired}; <= 2 addresses per field; unwind 8",
+    outside="ConnectionHandlerSelect polling, ToSwarm event mapping in poll(), FromSwarm events that need a live connection (ConnectionEstablished/Closed, DialFailure, ...), #[behaviour(to_swarm)] variants, generic fields",
     stubs=[TRACING, FMT], assumptions=[FORGET], hooks=[],
 )
